@@ -4,7 +4,8 @@ test accepts only what the run-time gate accepts), D4 (created keys are written 
 D5 (abstract context state updated completely, after the node's own parameters were classified; the
 deleted-key availability test reads the state at node entry), D3 converse (the run-time gate rejects only
 what the compatibility test rejects), D6 (run time and inspection enumerate the same kinds of `_process_logic`
-parameters), D7/D8 (module boundary inspection | run: one forward value flow of node configurations - see the block
+parameters - the two base classes and every class-generating function that builds both), D9 (generated processor classes
+act on every key they declare as created / suppressed), D7/D8 (module boundary inspection | run: one forward value flow of node configurations - see the block
 comment above `_CfgFlow`)."""
 from __future__ import annotations
 
@@ -80,6 +81,8 @@ def run(repo: Repo, R: Report) -> None:
     _created_keys_written(repo, R)
     # ------------------------------------------------------------------ D6
     _parameter_universe(repo, R)
+    # ------------------------------------------------------------------ D9
+    _declared_keys_acted_on(repo, R)
     # ------------------------------------------------------------------ D7 / D8
     _same_node_config(repo, R)
 
@@ -1012,14 +1015,22 @@ def _kind_filter(repo: Repo, rel: str, qn: str) -> Tuple[Dict[str, str], ast.AST
     from ..normal import nfunc
 
     f = nfunc(repo, rel, qn, copyprop="all")
+    found = _kind_tables(f, _module_consts(repo, rel), qn)
+    if len(found) != 1:
+        raise AnalysisError(f"{qn}: {len(found)} enumerations of signature parameters feed the returned value (1 expected); shape not recognised")
+    return found[0]
+
+
+def _kind_tables(f: ast.AST, consts: Dict[str, ast.AST], qn: str, sinks: Optional[Set[str]] = None) -> List[Tuple[Dict[str, str], ast.AST]]:
+    """Every enumeration of signature parameters in *f* (nested functions not entered) that feeds the value *f* returns
+    - or, when *sinks* is given, one of the containers so named: (per parameter kind "keep" / "drop" / "depends", construct)."""
     defs, resolved = _local_defs(f)
-    consts = _module_consts(repo, rel)
     a = f.args
     params = {x.arg for x in list(a.posonlyargs) + list(a.args) + list(a.kwonlyargs)}
-    returned: Set[str] = set()
+    returned: Set[str] = set(sinks or ())
     ret_nodes: List[ast.AST] = []
     for n in walk_no_nested(f):
-        if isinstance(n, ast.Return) and n.value is not None:
+        if sinks is None and isinstance(n, ast.Return) and n.value is not None:
             ret_nodes.append(n.value)
             returned |= _names_of(n.value) | _names_of(resolved(n.value))
 
@@ -1096,7 +1107,7 @@ def _kind_filter(repo: Repo, rel: str, qn: str) -> Tuple[Dict[str, str], ast.AST
         if not mentions_name(key, pvar, nvar):
             continue
         st = stmt_of(n)
-        is_returned = isinstance(st, ast.Return) or (isinstance(st, (ast.Assign, ast.AnnAssign)) and any(isinstance(t, ast.Name) and t.id in returned for t in _targets(st)))
+        is_returned = (sinks is None and isinstance(st, ast.Return)) or (isinstance(st, (ast.Assign, ast.AnnAssign)) and any(isinstance(t, ast.Name) and t.id in returned for t in _targets(st)))
         if not is_returned:
             continue
         table = {}
@@ -1107,13 +1118,11 @@ def _kind_filter(repo: Repo, rel: str, qn: str) -> Tuple[Dict[str, str], ast.AST
             if table[k] == "depends" and ev.not_understood:
                 raise AnalysisError(f"{qn}: whether a {k} parameter is kept depends on a test that is not understood: `{ast.unparse(ev.not_understood[0])[:80]}`")
         found.append((table, n))
-    if len(found) != 1:
-        raise AnalysisError(f"{qn}: {len(found)} enumerations of signature parameters feed the returned value (1 expected); shape not recognised")
-    return found[0]
+    return found
 
 
 def _parameter_universe(repo: Repo, R: Report) -> None:
-    r = R.rule("C02-D6-same-parameter-universe", "per processor family, the enumeration of `_process_logic` parameters that run time resolves (get_processing_parameter_names) and the one inspection classifies (the `parameters` metadata built by _retrieve_parameter_details; also where defaults are looked up) keep the same kinds of inspect.Parameter: a parameter the node resolves at run time is one inspection classified (else its context requirement is never reported and its default never found), and vice versa (else a key is reported as required that the node never reads)", 4)
+    r = R.rule("C02-D6-same-parameter-universe", "per processor family (the two base classes and every function that generates a processor class with both enumerations), the enumeration of `_process_logic` parameters that run time resolves (get_processing_parameter_names) and the one inspection classifies (the `parameters` metadata built by _retrieve_parameter_details, or by the function that generates the class; also where defaults are looked up) keep the same kinds of inspect.Parameter: a parameter the node resolves at run time is one inspection classified (else its context requirement is never reported and its default never found), and vice versa (else a key is reported as required that the node never reads)", 7)
     for rel, cls in ((DATAPROC, "_BaseDataProcessor"), (CTXPROC, "ContextProcessor")):
         rt_q, in_q = f"{cls}.get_processing_parameter_names", f"{cls}._retrieve_parameter_details"
         rt_f, in_f = repo.func(rel, rt_q), repo.func(rel, in_q)
@@ -1129,6 +1138,7 @@ def _parameter_universe(repo: Repo, R: Report) -> None:
         shown = lambda t: ", ".join(f"{k}:{t[k]}" for k in _KINDS)  # noqa: E731
         R.check(not lost, r, rel, in_q, "keeps every parameter kind run time resolves", f"parameters of kind {', '.join(lost)} are resolved at run time ({rt_q}: {shown(rt)}) but `{norm(in_at)[:70]}` does not (always) enter them into the `parameters` metadata ({shown(ins)}): inspection neither classifies them nor reports the context key they need, their declared default is not found - an accepted configuration whose initial context holds every reported key fails with 'Unable to resolve parameter'", getattr(in_at, "lineno", in_f.lineno))
         R.check(not extra, r, rel, rt_q, "resolves every parameter kind inspection classifies", f"parameters of kind {', '.join(extra)} are classified by inspection ({in_q}: {shown(ins)}) but `{norm(rt_at)[:70]}` does not (always) resolve them at run time ({shown(rt)}): inspection reports an origin / a required context key for a parameter the node never reads", getattr(rt_at, "lineno", rt_f.lineno))
+    _generated_parameter_universe(repo, R, r)
 
 
 # =====================================================================================================
@@ -1720,3 +1730,250 @@ def _same_node_config(repo: Repo, R: Report) -> None:
             R.violation(r7, brel, bqn, norm(stmt_of(node)), f"`{norm(node)[:90]}`: {why} on the way from the run entry to `{norm(call)[:60]}` ({rel}: {qn}); inspection builds its node from the declared entries, so the origin / required keys / unknown-parameter names it reports are not those of the node that runs (an entry inspection classified as 'configuration' is resolved from context or default or is unresolvable at run time; a name inspection rejects is accepted)", getattr(node, "lineno", 0))
     if unknown and not reported:
         raise AnalysisError("run side: the \"parameters\" entry handed to the node factory is computed in a way the value flow does not understand: " + "; ".join(sorted(set(unknown))))
+
+
+# =====================================================================================================
+# generated processor classes: type(name, (Base,), {<interface name>: <closure>, ...})
+# =====================================================================================================
+def _outer_functions(repo: Repo):
+    """(module, qualname, function) of every function that is not nested in another function"""
+    for mod, qn, f in repo.all_functions():
+        if not any(isinstance(a, FuncNode) for a in ancestors(f)):
+            yield mod, qn, f
+
+
+def _entry_functions(F: ast.AST, v: Optional[ast.AST], depth: int = 0) -> List[ast.AST]:
+    """nested functions of *F* a class-attribute value stands for: `fn`, `classmethod(fn)`, `lambda cls: fn()`,
+    `make()` where the nested function `make` returns a function it defines"""
+    if v is None or depth > 4:
+        return []
+    if isinstance(v, ast.Call) and isinstance(v.func, ast.Name) and v.func.id in ("classmethod", "staticmethod") and len(v.args) == 1:
+        return _entry_functions(F, v.args[0], depth + 1)
+    if isinstance(v, ast.Lambda):
+        return _entry_functions(F, v.body.func, depth + 1) if isinstance(v.body, ast.Call) and isinstance(v.body.func, ast.Name) else []
+    if isinstance(v, ast.Name):
+        return [n for n in ast.walk(F) if isinstance(n, FuncNode) and n is not F and n.name == v.id]
+    if isinstance(v, ast.Call) and isinstance(v.func, ast.Name) and not v.args and not v.keywords:
+        out: List[ast.AST] = []
+        for mk in _entry_functions(F, v.func, depth + 1):
+            for rt in walk_no_nested(mk):
+                if isinstance(rt, ast.Return) and isinstance(rt.value, ast.Name):
+                    out += [n for n in ast.walk(mk) if isinstance(n, FuncNode) and n is not mk and n.name == rt.value.id]
+        return out
+    return []
+
+
+def _registered(F: ast.AST, iface: str) -> List[ast.AST]:
+    """nested functions of *F* entered under the class-attribute name *iface* into a mapping of *F*
+    (`{iface: ...}` entry or `M[iface] = ...`)"""
+    out: List[ast.AST] = []
+    for n in walk_no_nested(F):
+        if isinstance(n, ast.Dict):
+            for k, v in zip(n.keys, n.values):
+                if _const_str(k) == iface:
+                    out += _entry_functions(F, v)
+        elif isinstance(n, (ast.Assign, ast.AnnAssign)) and n.value is not None:
+            if any(isinstance(t, ast.Subscript) and _const_str(t.slice) == iface for t in _targets(n)):
+                out += _entry_functions(F, n.value)
+        elif isinstance(n, ast.Call) and (call_name(n) == "dict" or call_attr(n) == "update"):
+            for k in n.keywords:
+                if k.arg == iface:
+                    out += _entry_functions(F, k.value)
+    # class statement in the function body: methods are the entries
+    for c in ast.walk(F):
+        if isinstance(c, ast.ClassDef) and next((a for a in ancestors(c) if isinstance(a, FuncNode)), None) is F:
+            out += [st for st in c.body if isinstance(st, FuncNode) and st.name == iface]
+    uniq: List[ast.AST] = []
+    for f in out:
+        if not any(f is u for u in uniq):
+            uniq.append(f)
+    return uniq
+
+
+def _declared_list(fns: List[ast.AST]) -> Optional[List[ast.AST]]:
+    """elements of the list display every one of *fns* returns (None: some declaration is not a display)"""
+    out: List[ast.AST] = []
+    for f in fns:
+        rets = [n for n in walk_no_nested(f) if isinstance(n, ast.Return)]
+        if not rets:
+            return None
+        for rt in rets:
+            if not isinstance(rt.value, (ast.List, ast.Tuple)) or any(isinstance(e, ast.Starred) for e in rt.value.elts):
+                return None
+            out += list(rt.value.elts)
+    return out
+
+
+def _same_expr(a: Optional[ast.AST], b: Optional[ast.AST]) -> bool:
+    return a is not None and b is not None and ast.dump(a) == ast.dump(b)
+
+
+def _base_notifiers(repo: Repo, mod, F: ast.AST) -> Tuple[Set[str], Set[str]]:
+    """(writer method names, deleter method names) of the base class(es) of the class *F* builds with type(name, (Base,), attrs):
+    methods (self, key, ...) that hand `key` to an `update`/`set_value` resp. `delete`/`delete_value` call on a part of self."""
+    writers: Set[str] = set()
+    deleters: Set[str] = set()
+    bases: List[Tuple[ast.AST, ast.AST]] = []
+    for c in calls_in(F):
+        if isinstance(c.func, ast.Name) and c.func.id == "type" and len(c.args) == 3 and isinstance(c.args[1], (ast.Tuple, ast.List)):
+            bases += [(b, c) for b in c.args[1].elts]
+    for c in ast.walk(F):
+        if isinstance(c, ast.ClassDef) and next((a for a in ancestors(c) if isinstance(a, FuncNode)), None) is F:
+            bases += [(b, c) for b in c.bases]
+    meths: List[ast.AST] = []
+    for b, c in bases:
+        r = repo.resolve_name(mod, b, c)
+        if r is None or not isinstance(r[1], ast.ClassDef):
+            continue
+        for _cm, cc in repo.mro(r[0], r[1]):
+            meths += [st for st in cc.body if isinstance(st, FuncNode) and len(st.args.args) >= 2]
+    grew = True
+    while grew:
+        grew = False
+        for st in meths:
+            me, key = st.args.args[0].arg, st.args.args[1].arg
+            for k in calls_in(st):
+                if not (isinstance(k.func, ast.Attribute) and k.args and _is_name(k.args[0], key)):
+                    continue
+                recv = dotted_name(k.func.value) or ""
+                if recv.split(".")[0] != me:
+                    continue
+                if "." in recv:  # a part of self (the observer / its context)
+                    w, d = k.func.attr in ("update", "set_value"), k.func.attr in ("delete", "delete_value")
+                else:  # another notifier of the same object
+                    w, d = k.func.attr in writers, k.func.attr in deleters
+                if w and st.name not in writers:
+                    writers.add(st.name)
+                    grew = True
+                if d and st.name not in deleters:
+                    deleters.add(st.name)
+                    grew = True
+    return writers, deleters
+
+
+def _declared_keys_acted_on(repo: Repo, R: Report) -> None:
+    """Inspection takes the keys a node creates / suppresses from the processor's declaration
+    (get_created_keys / get_suppressed_keys); for processor classes generated by a factory function the declaration
+    and the behaviour are closures of one function, so their agreement is decidable there."""
+    from ..engine import qualname_of
+    from ..normal import nfunc
+
+    r = R.rule("C02-D9-declared-keys-acted-on", "in a function that generates a context-processor class (type(name, (Base,), {\"_process_logic\": f, \"get_created_keys\": c, \"get_suppressed_keys\": s, \"get_processing_parameter_names\": p})): every key the declarations c / s list is written / deleted through the base class's observer notifier on every path on which f returns normally, except paths taken only when a declared processing parameter is absent from the resolved arguments (the node raises before the call when a parameter cannot be resolved, so such a path is never run); a condition on the resolved *value* (None, empty, falsy) in front of the write / delete makes the per-node created / suppressed keys inspection reports false of the run", 4)
+    for mod, qn, F in _outer_functions(repo):
+        logic = _registered(F, "_process_logic")
+        if len(logic) != 1:
+            continue
+        decls = (("created", _registered(F, "get_created_keys")), ("suppressed", _registered(F, "get_suppressed_keys")))
+        if not decls[0][1] and not decls[1][1]:
+            continue
+        writers, deleters = _base_notifiers(repo, mod, F)
+        if not writers and not deleters:
+            continue
+        repo.consulted.add(mod.rel)
+        L0 = logic[0]
+        lqn = qualname_of(L0)
+        L = nfunc(repo, mod.rel, lqn, copyprop="all") if mod.defs.get(lqn) is L0 else L0
+        if not L.args.args:
+            continue
+        me = L.args.args[0].arg
+        kw = L.args.kwarg.arg if L.args.kwarg is not None else None
+        _defs, resolved = _local_defs(L)
+        pdecl = _registered(F, "get_processing_parameter_names")
+        pnames = _declared_list(pdecl) or []
+        pcolls = [rt.value.args[0] if isinstance(rt.value, ast.Call) and call_name(rt.value) in ("list", "tuple", "sorted") and len(rt.value.args) == 1 else rt.value for f in pdecl for rt in walk_no_nested(f) if isinstance(rt, ast.Return) and rt.value is not None and not isinstance(rt.value, (ast.List, ast.Tuple))]
+
+        def absent(e: ast.AST) -> Optional[bool]:
+            """True: *e* says a declared processing parameter is not among the resolved arguments"""
+            e = resolved(e)
+            if isinstance(e, ast.Compare) and len(e.ops) == 1 and isinstance(e.ops[0], (ast.In, ast.NotIn)) and kw is not None and _is_name(e.comparators[0], kw):
+                if any(_same_expr(resolved(e.left), p) for p in pnames):
+                    return isinstance(e.ops[0], ast.NotIn)
+            # [k for k in <declared names> if k not in kwargs] - truthy when one is absent
+            if isinstance(e, (ast.ListComp, ast.SetComp)) and len(e.generators) == 1 and len(e.generators[0].ifs) == 1 and isinstance(e.generators[0].target, ast.Name):
+                gen = e.generators[0]
+                t = gen.ifs[0]
+                if any(_same_expr(gen.iter, pc) for pc in pcolls) and isinstance(t, ast.Compare) and len(t.ops) == 1 and isinstance(t.ops[0], ast.NotIn) and _is_name(t.left, gen.target.id) and kw is not None and _is_name(t.comparators[0], kw) and _is_name(e.elt, gen.target.id):
+                    return True
+            return None
+
+        g = CFG(L, may_raise=lambda part: set())
+        blocked = _edges_implying(g, absent)
+        for what, dfns in decls:
+            keys = _declared_list(dfns) if dfns else []
+            if keys is None:
+                continue  # the declaration is computed: not decided here
+            meths = writers if what == "created" else deleters
+            for key in keys:
+                sites = {n.id for n in g.nodes if n.ast is not None and n.kind == "stmt" and any(isinstance(c.func, ast.Attribute) and c.func.attr in meths and _is_name(c.func.value, me) and c.args and _same_expr(resolved(c.args[0]), key) for c in calls_in(n.ast))}
+                miss = g.must_pass([g.entry], [g.ret_exit], lambda n: n.id in sites, blocked_edges=blocked)
+                tests = sorted({norm(n.part)[:60] for n in g.nodes if n.kind in ("if", "while") and n.part is not None and absent(n.part) is None and not _implies(n.part, absent, True) and not _implies(n.part, absent, False)})
+                verb = "written" if what == "created" else "deleted"
+                R.check(bool(sites) and not miss, r, mod.rel, f"{qn}.{L0.name}", f"declared {what} key `{ast.unparse(key)}` is {verb} on every normally returning path",
+                        f"the generated processor declares `{ast.unparse(key)}` as {what} (inspection records it so for the node and classifies later readers accordingly) but its logic can return normally without the {'write' if what == 'created' else 'deletion'}" + (f" - it is behind `{tests[0]}`, a condition other than the absence of a declared parameter (e.g. a key that is present and holds None)" if tests and sites else "") + ": the keys that appear / disappear when the node runs are not the reported ones and a later reader of the key fails with 'Unable to resolve parameter' although the configuration was accepted",
+                        L0.lineno, path=miss[0][1] if miss else None)
+
+
+def _generated_parameter_universe(repo: Repo, R: Report, r: str) -> None:
+    """D6 for generated processor classes: a function that registers closures as `get_processing_parameter_names`
+    (what the node resolves at run time) and stores a mapping it builds from a signature as the `parameters` metadata
+    (what inspection classifies and where defaults are looked up) - both enumerations keep the same parameter kinds."""
+    from ..normal import nfunc
+
+    for mod, qn, F0 in _outer_functions(repo):
+        if not _registered(F0, "get_processing_parameter_names"):
+            continue
+        if not any(isinstance(n, ast.Subscript) and isinstance(n.ctx, ast.Store) and _const_str(n.slice) == "parameters" for n in ast.walk(F0)):
+            continue
+        F = nfunc(repo, mod.rel, qn, copyprop="temps")
+        consts = _module_consts(repo, mod.rel)
+        # the mapping(s) stored as the `parameters` metadata, anywhere in the function or its closures
+        metas: Set[str] = set()
+        for n in ast.walk(F):
+            if isinstance(n, (ast.Assign, ast.AnnAssign)) and n.value is not None and any(isinstance(t, ast.Subscript) and _const_str(t.slice) == "parameters" for t in _targets(n)):
+                if isinstance(n.value, ast.Name):
+                    metas.add(n.value.id)
+            elif isinstance(n, ast.Dict):
+                metas |= {v.id for k, v in zip(n.keys, n.values) if _const_str(k) == "parameters" and isinstance(v, ast.Name)}
+        # other names of the same mapping object (`described = details`)
+        grew = True
+        while grew:
+            grew = False
+            for n in ast.walk(F):
+                if isinstance(n, (ast.Assign, ast.AnnAssign)) and isinstance(n.value, ast.Name):
+                    for t in _targets(n):
+                        if isinstance(t, ast.Name) and (t.id in metas) != (n.value.id in metas):
+                            metas |= {t.id, n.value.id}
+                            grew = True
+        def via_helper(values: List[ast.AST]) -> List[Tuple[Dict[str, str], ast.AST]]:
+            """the enumeration is done by a module-level function the value is obtained from (`h(...)`, `list(h(...))`)"""
+            out = []
+            for v in values:
+                while isinstance(v, ast.Call) and isinstance(v.func, ast.Name) and v.func.id in ("list", "tuple", "dict", "OrderedDict", "sorted") and len(v.args) == 1:
+                    v = v.args[0]
+                if isinstance(v, ast.Call) and isinstance(v.func, ast.Name) and isinstance(mod.defs.get(v.func.id), FuncNode):
+                    out += _kind_tables(nfunc(repo, mod.rel, v.func.id, copyprop="all"), consts, v.func.id)
+            return out
+
+        ins = _kind_tables(F, consts, qn, sinks=metas) if metas else []
+        if not ins and metas:
+            ins = via_helper([n.value for n in ast.walk(F) if isinstance(n, (ast.Assign, ast.AnnAssign)) and n.value is not None and any(isinstance(t, ast.Name) and t.id in metas for t in _targets(n))])
+        rts: List[Tuple[ast.AST, Dict[str, str], ast.AST]] = []
+        for G in _registered(F, "get_processing_parameter_names"):
+            tables = _kind_tables(G, consts, f"{qn}.{G.name}")
+            if not tables:
+                _gd, gres = _local_defs(G)
+                tables = via_helper([gres(rt.value) for rt in walk_no_nested(G) if isinstance(rt, ast.Return) and rt.value is not None])
+            for table, at in tables:
+                rts.append((G, table, at))
+        if not ins or not rts:
+            continue  # one side does not enumerate a signature here (delegates to the wrapped class): not decided
+        if len(ins) != 1:
+            raise AnalysisError(f"{qn}: {len(ins)} enumerations of signature parameters feed the `parameters` metadata (1 expected); shape not recognised")
+        repo.consulted.add(mod.rel)
+        itab, in_at = ins[0]
+        shown = lambda t: ", ".join(f"{k}:{t[k]}" for k in _KINDS)  # noqa: E731
+        for G, rt, rt_at in rts:
+            lost = [k for k in _KINDS if rt[k] != "drop" and itab[k] != "keep"]
+            extra = [k for k in _KINDS if itab[k] != "drop" and rt[k] != "keep" and k not in lost]
+            R.check(not lost, r, mod.rel, qn, f"`parameters` metadata keeps every parameter kind {G.name} (line {G.lineno}) resolves", f"parameters of kind {', '.join(lost)} are resolved at run time (closure registered as get_processing_parameter_names, line {G.lineno}: {shown(rt)}) but `{norm(in_at)[:70]}` does not (always) enter them into the `parameters` metadata of the generated class ({shown(itab)}): inspection neither classifies them nor reports the context key they need, and the default lookup shared by inspection and run time (_default_for reads this metadata) does not find their declared default - an accepted configuration whose initial context holds every reported key fails with 'Unable to resolve parameter'", getattr(in_at, "lineno", F0.lineno))
+            R.check(not extra, r, mod.rel, f"{qn}.{G.name}", f"resolves every parameter kind the `parameters` metadata lists (line {G.lineno})", f"parameters of kind {', '.join(extra)} are listed in the `parameters` metadata ({shown(itab)}) but `{norm(rt_at)[:70]}` does not (always) resolve them at run time ({shown(rt)}): inspection reports an origin / a required context key for a parameter the node never reads", getattr(rt_at, "lineno", G.lineno))
